@@ -261,6 +261,8 @@ def run_config(cfg, e):
 
 
 def replay(case):
+    from symx.loader import real_phylib
+    real_phylib()
     from phylib.utils import Bunch
     kind = case['kind']
     if kind == 'amps_true':
